@@ -289,6 +289,33 @@ class Function:
         return "%s:%s" % (os.path.relpath(self.file, REPO), n.get("l", self.line))
 
 
+def _norm_param_consts(k):
+    i, j = k.find("("), k.rfind(")")
+    if i < 0 or j < i:
+        return k
+    args, out, depth, cur = k[i + 1:j], [], 0, ""
+    for ch in args:
+        if ch in "<(":
+            depth += 1
+        elif ch in ">)":
+            depth -= 1
+        if ch == "," and depth == 0:
+            out.append(cur)
+            cur = ""
+        else:
+            cur += ch
+    if cur:
+        out.append(cur)
+    res = []
+    for a in out:
+        a = a.strip()
+        if a.startswith("const ") and not a.endswith("&") and not a.endswith("*"):
+            a = a[6:]
+        a = re.sub(r"\s*\*const$", " *", a)
+        res.append(a)
+    return k[:i] + "(" + ",".join(res) + k[j:]
+
+
 class Program:
     """The merged, type-resolved program: functions, records, enums, globals."""
 
@@ -343,6 +370,20 @@ class Program:
         self.by_key = {}
         for (k, _f, _l), fn in self.functions.items():
             self.by_key.setdefault(k, fn)
+        # A declaration and its definition may differ in top-level const of by-value parameters (`unsigned int` vs `const unsigned int`,
+        # `T *` vs `T *const`); clang prints the callee of a call site from the declaration it resolved.  Point such callee keys at the definition.
+        norm_def = {}
+        for k in self.by_key:
+            norm_def.setdefault(_norm_param_consts(k), k)
+        self.callee_aliases = 0
+        for fn in self.functions.values():
+            for n in fn.nodes():
+                c = n.get("callee")
+                if c is not None and c not in self.by_key:
+                    d_ = norm_def.get(_norm_param_consts(c))
+                    if d_ is not None:
+                        n["callee"] = d_
+                        self.callee_aliases += 1
         self.load_s = time.time() - t0
 
     # ---- lookup helpers -------------------------------------------------
@@ -397,7 +438,7 @@ def load_program(units=None):
     templates of /repo's headers that the library itself leaves uninstantiated."""
     import pickle
     paths = extract(units, extra_units=INSTANTIATION_DRIVERS)
-    tag = hashlib.sha256(("v3\n" + "\n".join(sorted(paths.values()))).encode()).hexdigest()[:32]
+    tag = hashlib.sha256(("v4\n" + "\n".join(sorted(paths.values()))).encode()).hexdigest()[:32]
     pk = os.path.join(CACHE, "program-%s.pkl" % tag)
     if os.path.exists(pk):
         try:
